@@ -154,13 +154,14 @@ ApplyGraph(n, s) ==
     [] n = "GRAPH.NODE*PREDECESSORS" -> AdjQuery(s, Preds, TRUE)
     [] n = "GRAPH.NODE*SUCCESSORS"   -> AdjQuery(s, Succs, FALSE)
     [] n = "GRAPH.NODE*NEIGHBORS"    -> AdjQuery(s, LAMBDA g, id, st : Preds(g, id, st) \o Succs(g, id, st), FALSE)
-    \* the textual forms expose hash order and are not modelled beyond "a name is pushed"
+    \* the textual forms expose hash order: the pushed NAME is specified up to the order of the nodes and
+    \* of the destination groups (PushGraphText: TextOK / DiffTextOK, applied by the matcher)
     [] n = "GRAPH.PRINT" -> IF G = <<>> THEN Unfired(s)
-                            ELSE FiredH(PushOn(s, "name", ""), <<Hole(<<"name", 1>>, "name")>>)
+                            ELSE FiredH(PushOn(s, "name", ""), <<HoleAB(<<"name", 1>>, "graphtext", G[1], 0)>>)
     \* a diff text is pushed exactly when the two top snapshots differ
     [] n = "GRAPH.PRINT*DIFF" -> IF Len(G) < 2 THEN Unfired(s)
                                  ELSE IF Differ(G[2], G[1])
-                                 THEN FiredH(PushOn(s, "name", ""), <<Hole(<<"name", 1>>, "name")>>)
+                                 THEN FiredH(PushOn(s, "name", ""), <<HoleAB(<<"name", 1>>, "difftext", G[2], G[1])>>)
                                  ELSE Unfired(s)
     \* weight popped first, then origin (second) and destination (top)
     [] n = "GRAPH.EDGE*ADD" -> IF G = <<>> \/ ~Has(s, "float", 1) THEN Unfired(s)
